@@ -9,64 +9,69 @@
   Blank nodes are renumbered by first occurrence (`b0`, `b1`, …) in the order s, p, o, g of the
   statement stream; the Go side does the same.
 
-  IRI resolution: `Cfg.resolve` is instantiated with RFC 3986 §5.2 (`Spec.RFC3986.resolve`) on a
-  *safe fragment* on which `/repo/iri` (a `net/url` wrapper with known deviations, D14) is expected
-  to agree with the RFC: lower-case scheme, non-empty authority of `[a-z0-9.-]`, path of unreserved
-  characters and `/` without empty segments (Go's `resolvePath` treats `..//` unlike RFC 3986), query/fragment of unreserved characters and `=&`, base absolute with
-  authority, with a non-empty path and without fragment (Go keeps the base's fragment for an empty
-  reference and does not insert the `/` of RFC 3986 §5.2.3 under an empty base path), and without
-  `.`/`..` segments in the base path (a base declared without a base in force is kept verbatim, and Go
-  removes its dot segments on every later resolution, also for `<>`, `<#x>`, `<?y>`). Outside the fragment the resolver answers `none`, the run ends with `err:resolve`,
-  and the harness counts a resolver-caused skip when the implementation went on.
+  IRI resolution (round 3d, builder-iriunify): `Cfg.resolve` is instantiated with the EXACT model of the code's
+  resolver, `PIRI.parseIRI` / `ParsedIRI.parseRef` / `str` (Model/ParsedIRI.lean on Model/GoUrlFull.lean, tied
+  by the `piri.*` ops), on the UTF-8 bytes of the rune lists — no longer with `Spec.RFC3986.resolve` on a
+  'safe fragment' (lower-case scheme, `[a-z0-9.-]` authority, unreserved paths, base with authority, non-empty
+  path, no fragment, no dot segments). The model's environment keeps the base as a STRING and re-parses it on
+  every resolution, whereas Go keeps the `*ParsedIRI` that the previous resolution returned; the two differ
+  exactly when `ParseIRI(p.String()) ≠ p` (e.g. the sticky `forceFragment` flag, C12W.deviates_chain_sticky),
+  so the resolver answers `unsure` when the ParsedIRI it produces does not re-parse to itself, when the full
+  net/url model declines (`unmodelled`: '%' inside an IP literal) or when the printed IRI is not well-formed
+  UTF-8 (the model's terms are rune lists). `unsure` and a genuine error (`url.Parse` fails) both reach the
+  statement machine as `none`: the run ends with `err:resolve`, and the harness counts a resolver-caused skip
+  when the implementation went on. `ttld.resolve` distinguishes them (`error` / `unsure`).
+  Measured with go/cmd/c05ttl -prop C05 and go/cmd/c08, quick tier, seed 1: see DESIGN / the part report.
 -/
 import RdfModel.Driver.Wire
 import RdfModel.Model.TurtleDoc
 import RdfModel.Gen.TtlTables
 import RdfModel.Gen.NQTables
 import RdfModel.Spec.RFC3986
+import RdfModel.Model.ParsedIRI
 namespace RdfModel.Driver.TtlDoc
 open RdfModel RdfModel.Wire RdfModel.TtlDoc
 
-def isLower (c : Nat) : Bool := 0x61 ≤ c && c ≤ 0x7a
-def isUpper (c : Nat) : Bool := 0x41 ≤ c && c ≤ 0x5a
-def isDig (c : Nat) : Bool := 0x30 ≤ c && c ≤ 0x39
-def unres (c : Nat) : Bool := isLower c || isUpper c || isDig c || c = 0x2d || c = 0x2e || c = 0x5f || c = 0x7e
+inductive RC where
+  | ok (s : List Nat)      -- resolved IRI, as runes
+  | err                    -- `url.Parse` of the reference (or of the base) fails: Go reports an error
+  | unsure                 -- outside what the string-based environment can reproduce (see the header)
+deriving DecidableEq, Repr
 
-def safeScheme : List Nat → Bool
-  | [] => false
-  | c :: rest => isLower c && rest.all (fun d => isLower d || isDig d)
+/-- the printed form of a resolution result, when the environment may keep it as the next base -/
+def finish (p : PIRI.ParsedIRI) : RC :=
+  let s := p.str
+  let stable := match PIRI.parseIRI s with
+    | .ok q => q == p
+    | .error _ => false
+  if stable && utf8Encode (utf8Decode s) == s then .ok (utf8Decode s) else .unsure
 
-def safeAuth (a : List Nat) : Bool :=
-  !a.isEmpty && a.all (fun c => isLower c || isDig c || c = 0x2d || c = 0x2e) &&
-  a.head? != some 0x2e && a.head? != some 0x2d
-
-def noEmptySegment : List Nat → Bool
-  | 0x2f :: 0x2f :: _ => false
-  | _ :: rest => noEmptySegment rest
-  | [] => true
-
-def safeParts (p : Spec.RFC3986.Parts) : Bool :=
-  (match p.scheme with
-    | none => true
-    | some s => safeScheme s && p.authority.isSome) &&
-  (match p.authority with
-    | none => true
-    | some a => safeAuth a) &&
-  p.path.all (fun c => unres c || c = 0x2f) && noEmptySegment p.path &&
-  (match p.query with | none => true | some q => q.all (fun c => unres c || c = 0x3d || c = 0x26)) &&
-  (match p.fragment with | none => true | some q => q.all (fun c => unres c || c = 0x3d || c = 0x26))
+/-- `ResolveURL` / `ResolveIRI` with a base: `base = none` is `iri.ParseIRI(ref)`, otherwise
+    `ParseIRI(base).Parse(ref)`; then `String()` -/
+def resolveCode (base : Option (List Nat)) (ref : List Nat) : RC :=
+  let r := utf8Encode ref
+  match base with
+  | none =>
+    match PIRI.parseIRI r with
+    | .ok p => finish p
+    | .error .unmodelled => .unsure
+    | .error _ => .err
+  | some b =>
+    match PIRI.parseIRI (utf8Encode b) with
+    | .error .unmodelled => .unsure
+    | .error _ => .err
+    | .ok bp =>
+      match bp.parseRef r with
+      | .ok t => finish t
+      | .err .unmodelled => .unsure
+      | .err _ => .err
+      | .panic => .unsure
 
 /-- `Cfg.resolve` of the driver. -/
 def resolveSafe (base : Option (List Nat)) (ref : List Nat) : Option (List Nat) :=
-  let R := Spec.RFC3986.split ref
-  if !safeParts R then none
-  else match base with
-    | none => some ref
-    | some b =>
-      let B := Spec.RFC3986.split b
-      if safeParts B && B.scheme.isSome && B.authority.isSome && B.fragment.isNone && B.path.head? == some 0x2f &&
-          (Spec.RFC3986.segments B.path).all (fun sg => !Spec.RFC3986.isDotSegment sg) then some (Spec.RFC3986.resolve b ref)
-      else none
+  match resolveCode base ref with
+  | .ok s => some s
+  | _ => none
 
 def cfgOf (pkg : String) : Option Cfg :=
   let mk (trig : Bool) (T : Ttl.Tables) : Cfg :=
@@ -128,9 +133,10 @@ def handle (op : String) (args : List String) : Option String :=
   | "resolve", [base, ref] => do
     let base ← optRunes base
     let ref ← runesTok ref
-    match resolveSafe base ref with
-    | some r => pure ("some " ++ tokOfRunes r)
-    | none => pure "unsure"
+    match resolveCode base ref with
+    | .ok r => pure ("some " ++ tokOfRunes r)
+    | .err => pure "error"
+    | .unsure => pure "unsure"
   | _, _ => none
 
 end RdfModel.Driver.TtlDoc
